@@ -13,6 +13,7 @@ EXPLANATION = (
     'Also decided: every NameServer method touches the storage only under the lock; multi-statement reads of the sqlite storage run in one snapshot; `nsc register` is one safe remote call. '
     'Also decided (round 7): The storage is used through NameServer only (other code may only close it); MemoryStorage never edits a stored entry in place. '
     'Also decided (round 9): Fields of the name server object are written only under the lock. '
+    'Also decided (round 11): The safe-registration refusal and the snapshot listing are shared from C14. '
     "Not decided: linearizability of histories, atomicity inside one storage method."
 )
 
